@@ -64,14 +64,21 @@ ASSUMPTIONS = [
 ]
 RULE = (
     "parameter sets of 1..7 parameters, flat and nested labels in non-sorted declaration order, built through "
-    "from_parameter_dict_list / from_list / from_dict; every parameter drawn from free/fixed x "
+    "from_parameter_dict_list / from_list / from_dict, and (30 %) written the way parameter files are written: a flat "
+    "list or nested groups (from_list / from_dict / the yml loader) where every group carries a block of DEFAULT OPTIONS "
+    "(vary / non-negative / min / max taken from its members, mostly trailing) and a member spells out only the options in "
+    "which it differs from the defaults (now and then one it shares; members without options of their own included) — "
+    "for these the oracle also requires: free / fixed, box, non-negative flag, expression and value of every parameter are "
+    "those declared (own options + defaults of its group, never a neighbour's), the specification object is not modified "
+    "and parses twice to the same set (compared by the oracle only; the model sees the parsed set); every parameter drawn from free/fixed x "
     "unbounded/lower/upper/both x non-negative x expression(+,* over earlier plain parameters); values from "
     "{1, at a bound, 1e300, 1e-300, 0, negative, random, inf, nan}; bounds incl. 0, 1, negative for non-negative. "
     "Per set: constructor, both array selections, 3 set operations (free labels / shuffled subsets / unknown "
     "label / length mismatch; optimiser values incl. 0, +-800, +-inf, nan), one objective step with history "
     "record, set_from_history, the standard-error loop on a random Jacobian; all compared with the model. "
     "Oracle on the same sets plus optimisations of a 2-3 rate decay scheme with trf, dogbox, lm over "
-    "mixes of bounded / non-negative / fixed / expression parameters with targets inside and outside the box. "
+    "mixes of bounded / non-negative / fixed / expression parameters with targets inside and outside the box, the start "
+    "parameters of 35 % of them written as a flat list with a defaults block. "
     "non-trivial = at least one free and one non-free parameter or a non-negative one; distinct = distinct "
     "(specification, operation) pairs"
 )
@@ -331,6 +338,9 @@ def build(spec, route="dicts"):
             o["expression"] = ast_str(s["expr"])
         return o
 
+    if "+defaults" in route:
+        kind, raw = raw_with_defaults(spec, route)
+        return parse_raw(kind, raw)
     if route == "list":
         return Parameters.from_list([
             [s["label"], s["value"], {"min": s["min"], "max": s["max"], "non-negative": s["nonneg"], "vary": s["vary"],
@@ -348,6 +358,71 @@ def build(spec, route="dicts"):
                                     **({"expr": ast_str(s["expr"])} if s["expr"] is not None else {})}])
         return Parameters.from_dict(tree)
     return Parameters.from_parameter_dict_list([{"label": s["label"], "value": s["value"], **opts(s)} for s in spec])
+
+
+# ---- group defaults: a trailing options dict shared by every member of a group / of a flat list -------------
+OPT_KEYS = (("vary", "vary"), ("nonneg", "non-negative"), ("min", "min"), ("max", "max"))
+LIB_DEFAULT = {"vary": True, "nonneg": False, "min": -INF, "max": INF}
+
+
+def raw_with_defaults(spec, route):
+    """the specification written the way parameter files are written: every group (nested-dict route) or the flat list
+    carries a block of default options, and a member spells out only the options in which it differs from the
+    defaults of its group (plus, now and then, one it shares).  The *declared* parameter set is still `spec`: options of
+    a member apply to that member only, the defaults to every member that does not set the key itself.
+    route = '<list|dict|yml>+defaults:<seed>'; the layout is a function of (spec, route) only, so a recorded case replays."""
+    import random
+    kind, _, seed = route.partition("+defaults:")
+    r = random.Random(f"defaults:{seed}")
+
+    def items_of(members, leaf_of):
+        defaults = {}
+        for k, _name in OPT_KEYS:
+            if r.random() < 0.6:
+                defaults[k] = r.choice(members)[k]
+        if not defaults:
+            k = r.choice(OPT_KEYS)[0]
+            defaults[k] = r.choice(members)[k]
+        items = []
+        for s in members:
+            o = {}
+            for k, name in OPT_KEYS:
+                base = defaults.get(k, LIB_DEFAULT[k])
+                differs = (s[k] != base) if isinstance(base, bool) else not same(s[k], base)
+                if differs or r.random() < 0.15:
+                    o[name] = s[k]
+            if s["expr"] is not None:
+                o["expr"] = ast_str(s["expr"])
+            items.append([leaf_of(s), s["value"]] + ([o] if o or r.random() < 0.2 else []))
+        block = {name: defaults[k] for k, name in OPT_KEYS if k in defaults}
+        items.insert(len(items) if r.random() < 0.8 else r.randrange(len(items) + 1), block)
+        return items
+
+    if kind == "list":
+        return "list", items_of(spec, lambda s: s["label"])
+    tree: dict = {}
+    groups: dict = {}
+    for s in spec:
+        *path, _leaf = s["label"].split(".")
+        node = tree
+        for p in path[:-1]:
+            node = node.setdefault(p, {})
+        node.setdefault(path[-1], [])             # key order of the dicts = declaration order
+        groups.setdefault(tuple(path), (node, path[-1], []))[2].append(s)
+    for node, key, members in groups.values():
+        node[key] = items_of(members, lambda s: s["label"].split(".")[-1])
+    return kind, tree
+
+
+def parse_raw(kind, raw):
+    from glotaran.parameter import Parameters
+    if kind == "list":
+        return Parameters.from_list(raw)
+    if kind == "yml":
+        import yaml
+        from glotaran.io import load_parameters
+        return load_parameters(yaml.safe_dump(raw, sort_keys=False), format_name="yml_str")
+    return Parameters.from_dict(raw)
 
 
 def dict_route_order(spec):
@@ -884,6 +959,8 @@ def oracle_pset(ck, spec, route, order_expected):
         if order != order_expected:
             ck.violation("declaration-order", f"parameters enumerate as {order}, declared {order_expected}", case)
             return
+        if "+defaults" in route and not oracle_defaults(ck, spec, route, ps, case):
+            return
         # never handed over: fixed and expression parameters
         fl, fv, flo, fhi = ps.get_label_value_and_bounds_arrays(exclude_non_vary=True)
         want_free = [l for l in order if by[l]["vary"] and by[l]["expr"] is None]
@@ -980,6 +1057,69 @@ def oracle_pset(ck, spec, route, order_expected):
             ck.count("oracle:flags-changed-after-first-use")
 
 
+def oracle_defaults(ck, spec, route, ps, case):
+    """specification with group defaults: what reaches the optimiser is what was declared.  The options of a member are
+    its own, the defaults of the group reach every member that does not set the key itself — so which parameters are
+    free, their box and their transformation are those of `spec`, whatever the neighbours in the group say; parsing does
+    not change the specification, and parsing it again gives the same set."""
+    import copy
+    kind, raw = raw_with_defaults(spec, route)
+    case = {**case, "specification": show_raw(raw)}
+    ck.count(f"defaults:{kind}")
+    n_own = sum(1 for s in state_members(raw) if len(s) > 2 and s[2])
+    ck.count("defaults:members-with-own-options:" + ("0" if n_own == 0 else "1" if n_own == 1 else "2+"))
+    for p in ps.all():
+        s = next(x for x in spec if x["label"] == p.label)
+        declared_free = s["vary"] and s["expr"] is None
+        if bool(p.vary) != declared_free:
+            ck.violation("group-defaults:fixed-becomes-free" if p.vary else "group-defaults:free-becomes-fixed",
+                         f"{p.label} is declared {'free' if declared_free else 'not free'} (own options + defaults of its "
+                         f"group) but the parsed parameter has vary={p.vary}, expression={p.expression!r}", case)
+            return False
+        got = (float(p.minimum), float(p.maximum), bool(p.non_negative), p.expression)
+        want = (s["min"], s["max"], s["nonneg"], None if s["expr"] is None else ast_str(s["expr"]))
+        if not (same(got[0], want[0]) and same(got[1], want[1]) and got[2:] == want[2:]):
+            ck.violation("group-defaults:box-not-as-declared",
+                         f"{p.label}: (minimum, maximum, non_negative, expression) parsed as {got}, declared {want} "
+                         f"(own options + defaults of its group)", case)
+            return False
+        if s["expr"] is None and not same(p.value, s["value"]):
+            ck.violation("group-defaults:value-not-as-declared", f"{p.label}: value {p.value!r}, declared {s['value']!r}", case)
+            return False
+    # the caller's specification object: parsed twice
+    pristine = copy.deepcopy(raw)
+    first, second = state_of(parse_raw(kind, raw)), state_of(parse_raw(kind, raw))
+    if states_equal(first, second) is not None:
+        fl = [[s["label"] for s in st if s["vary"]] for st in (first, second)]
+        ck.violation("group-defaults:reparse-differs", f"the same specification object parsed twice gives two parameter "
+                     f"sets (free labels {fl[0]} then {fl[1]})", case)
+        return False
+    if show_raw(raw) != show_raw(pristine):
+        ck.violation("group-defaults:specification-modified", "parsing modified the caller's specification "
+                     f"(now {show_raw(raw)})", case)
+        return False
+    return True
+
+
+def show_raw(raw):
+    """the specification as strict JSON (non-finite numbers as text); the case replays from spec + route"""
+    if isinstance(raw, dict):
+        return {k: show_raw(v) for k, v in raw.items()}
+    if isinstance(raw, list):
+        return [show_raw(v) for v in raw]
+    if isinstance(raw, float) and not math.isfinite(raw):
+        return repr(raw)
+    return raw
+
+
+def state_members(raw):
+    if isinstance(raw, dict):
+        for v in raw.values():
+            yield from state_members(v)
+    else:
+        yield from (it for it in raw if isinstance(it, list))
+
+
 # ------------------------------------------------------------------------------------------
 # real optimisations
 # ------------------------------------------------------------------------------------------
@@ -1051,10 +1191,13 @@ def gen_opt_case(rng):
     decl.sort(key=lambda s: s["expr"] is not None)
     if not any(s["vary"] and s["expr"] is None and s["label"] in kin for s in decl):
         decl[0 if decl[0]["label"] in kin else [d["label"] for d in decl].index(kin[0])].update(vary=True)
-    return {"method": method, "kinetic": kin, "true": [fj(s["true"]) for s in spec],
+    case = {"method": method, "kinetic": kin, "true": [fj(s["true"]) for s in spec],
             "spec": spec_json([{k: v for k, v in s.items() if k != "true"} for s in decl]),
             "noise_seed": rng.randrange(2**31), "max_nfev": rng.choice([6, 10, 15]),
             "fail_at": rng.choice([2, 3, 5]) if rng.random() < 0.08 else 0}
+    if rng.random() < 0.35:                    # start parameters written as a flat list with a defaults block
+        case["route"] = f"list+defaults:{rng.randrange(10**6)}"
+    return case
 
 
 def run_opt_case(ck, case):
@@ -1084,7 +1227,8 @@ def run_opt_case(ck, case):
                       {"global": np.asarray([1.0, 2.0, 3.0]), "model": np.linspace(0, tmax, 40)})
         rs = np.random.RandomState(case["noise_seed"])
         ds["data"] = ds.data + rs.normal(0, 1e-3, ds.data.shape)
-        initial = build(spec)
+        initial = build(spec, case.get("route", "dicts"))
+        ck.count("opt:route:" + case.get("route", "dicts").split(":")[0])
         scheme = Scheme(model=DecayModel(**mdl), parameters=initial, data={"dataset1": ds},
                         maximum_number_function_evaluations=case["max_nfev"],
                         optimization_method=METHODS[case["method"]])
@@ -1316,19 +1460,26 @@ def run_opt_case(ck, case):
 # ------------------------------------------------------------------------------------------
 def pick_route(rng, spec):
     r = rng.random()
-    if r < 0.25:
+    if r < 0.2:
         return "list"
-    if r < 0.5 and dict_route_ok(spec):
+    if r < 0.4 and dict_route_ok(spec):
         return "dict"
+    if r < 0.7:          # specification with group defaults + sparse member options
+        kind = rng.choice(["dict", "dict", "yml"]) if dict_route_ok(spec) and rng.random() < 0.6 else "list"
+        return f"{kind}+defaults:{rng.randrange(10**6)}"
     return "dicts"
 
 
+def nested_route(route):
+    return route == "dict" or route.startswith(("dict+defaults", "yml+defaults"))
+
+
 def expected_order(spec, route):
-    return dict_route_order(spec) if route == "dict" else [s["label"] for s in spec]
+    return dict_route_order(spec) if nested_route(route) else [s["label"] for s in spec]
 
 
 def reorder(spec, route):
-    if route != "dict":
+    if not nested_route(route):
         return spec
     by = {s["label"]: s for s in spec}
     return [by[l] for l in dict_route_order(spec)]
@@ -1523,7 +1674,7 @@ def run(ck):
         nontrivial = len(kinds) > 1 or any(s["nonneg"] for s in spec)
         for j in jobs:
             ck.case((j.line,), nontrivial)
-        ck.count(f"route:{route}")
+        ck.count(f"route:{route.split(':')[0]}")
         ck.count(f"size:{len(spec)}")
         for s in spec:
             ck.count("param:" + ("expr" if s["expr"] else "free" if s["vary"] else "fixed")
